@@ -50,6 +50,8 @@ type Program struct {
 	mutGlobals    []*ssa.Global
 	lits          map[string]string
 	wordLists     map[string]*WordList
+	verifExempt   []string
+	bounded       *boundedStats
 	groundDone    bool
 	groundObls    []*Obligation
 	listFacts     map[string]bool
@@ -295,6 +297,16 @@ func (p *Program) extGlobal(ex *Exec, st *State, g *ssa.Global) SV {
 }
 
 func (p *Program) lookupPkgName(ex *Exec, st *State, name string) (SV, bool) {
+	if ex.fn != nil && ex.fn.Pkg != nil && ex.fn.Pkg != p.Main {
+		if g, ok := ex.fn.Pkg.Members[name].(*ssa.Global); ok {
+			if sv, ok := p.globalValue(g); ok {
+				return sv, true
+			}
+		}
+		if c, ok := ex.fn.Pkg.Members[name].(*ssa.NamedConst); ok {
+			return ex.constVal(st, c.Value), true
+		}
+	}
 	if v, ok := p.Lang.ByName[name]; ok {
 		return Scalar(IntLit(int64(v))), true
 	}
@@ -337,6 +349,24 @@ func (p *Program) runInit() []*Obligation {
 		return p.initObls
 	}
 	p.initDone = true
+	if p.Tool != nil {
+		// the generator's initialiser: lenient (values it cannot model stay unknown)
+		if fn := p.Tool.Func("init"); fn != nil {
+			ex := p.newExec(fn, nil)
+			ex.isInit = true
+			ex.lenient = true
+			ex.name = "update-wordlist.init"
+			func() {
+				defer func() { _ = recover() }()
+				ex.findLoops()
+				st := ex.newEntryState()
+				st.next = IntLit(40)
+				st.pc = nil
+				ex.stepBudget = 100000
+				ex.runBlock(st, fn.Blocks[0], 0)
+			}()
+		}
+	}
 	fn := p.Main.Func("init")
 	ex := p.newExec(fn, nil)
 	ex.isInit = true
